@@ -39,6 +39,7 @@ def cases(tier):
     out.append(dict(kind='recv', n=2, order='10', extra='dup-late'))
     out.append(dict(kind='recv', n=2, order='01', extra='other-id'))
     out.append(dict(kind='recv', n=2, order='01', extra='other-peer'))
+    out.append(dict(kind='recv', n=2, order='01', extra='other-port'))
     out.append(dict(kind='recv', n=2, order='01', extra='packed'))
     out.append(dict(kind='recv', n=1, order='0', extra='padding'))
     out.append(dict(kind='ranges'))
@@ -210,22 +211,29 @@ def h_recv(c, case):
         seq = [seq[0], seq[0]] + seq[1:]
     elif extra == 'dup-late':
         seq = seq + [seq[0]]
-    elif extra in ('other-id', 'other-peer'):
+    elif extra in ('other-id', 'other-peer', 'other-port'):
         tid2 = c.sym_int('tid2', 0, 2 ** 32)
         if extra == 'other-id':
             c.assume(tid2 != tid)
         else:
             tid2 = tid
-            peers['B'] = conv('10.0.0.8')
+            # the same transfer id from another address, or from another port of the same address
+            peers['B'] = conv('10.0.0.8') if extra == 'other-peer' else conv('10.0.0.7', 4557)
         L2, data2, segs2 = segments_for(c, 'B', 2, tid2, small=True)
         other = (L2, data2, segs2)
         seq = [seq[0], ('B', 0)] + seq[1:] + [('B', 1)]
     arrived = {'A': set(), 'B': set()}
     delivered = {'A': [], 'B': []}
 
+    escaped = []
+
     def feed(dgram, who):
         before = list(ag.recv_bundle_get_queue())
-        ag._recv_datagram(None, dgram, peers[who])
+        try:
+            ag._recv_datagram(None, dgram, peers[who])
+        except Exception as err:
+            # (the main loop logs an exception of a callback and carries on)
+            escaped.append(repr(err))
         after = list(ag.recv_bundle_get_queue())
         return [b for b in after if b not in before]
 
